@@ -107,6 +107,51 @@ def X_indexes(text):
 
 
 # ------------------------------------------------------------------------ (b) CLI == library
+def library_text(p, names_order):
+    """Text (or 'F:<Error>') for the request with its formats mentioned in the given order."""
+    from returns.result import Failure
+    from tensora.expression import parse_assignment
+    from tensora.format import parse_format
+    from tensora.generate import Language, generate_code
+    from tensora.kernel_type import KernelType
+    from tensora.problem import make_problem
+
+    asg = parse_assignment(p["assignment"]).unwrap()
+    fm = {n: parse_format(p["formats"][n]).unwrap() for n in names_order}
+    prob = make_problem(asg, fm)
+    if isinstance(prob, Failure):
+        return "F:" + type(prob.failure()).__name__
+    res = generate_code(prob.unwrap(), [KernelType[k] for k in p["kinds"]], Language[p["language"]])
+    return "F:" + type(res.failure()).__name__ if isinstance(res, Failure) else res.unwrap()
+
+
+def mention_order_fails(p):
+    """The order in which formats are mentioned (dict order, order of -f flags) is not part of the request."""
+    from typer.testing import CliRunner
+
+    from tensora.cli import app
+
+    names = list(p["formats"])
+    orders = [names, names[::-1], names[1:] + names[:1]]
+    texts = [library_text(p, o) for o in orders]
+    d = f"{p['assignment']} {p['formats']} {p['kinds']} {p['language']}"
+    fails = []
+    if len(set(texts)) > 1:
+        fails.append(fail("text-depends-on-format-mention-order", f"{d}: library text differs between mention orders "
+                          f"{orders[0]} / {orders[1]} / {orders[2]}"))
+    elif not texts[0].startswith("F:"):
+        args = [p["assignment"]]
+        for n in names[::-1]:
+            args += ["-f", f"{n}:{p['formats'][n]}"]
+        for k in p["kinds"]:
+            args += ["-t", k]
+        args += ["-l", p["language"]]
+        r = CliRunner().invoke(app, args)
+        if r.exit_code != 0 or r.stdout != texts[0] + "\n":
+            fails.append(fail("cli-text-depends-on-flag-order", f"{d}: -f flags in reverse order give different output"))
+    return fails
+
+
 def cli_task(task):
     tier, seed, shard, n = task
     stats = Stats()
@@ -115,6 +160,7 @@ def cli_task(task):
             continue
         fails, info = c08.check_problem(p, do_cli=True)
         fails = [f for f in fails if f["bucket"].startswith("cli-")]
+        fails += mention_order_fails(p)
         dense_omitted = any(set(f) <= {"d"} for f in p["formats"].values())
         labels = {"cli", f"status:{info['status']}"}
         if dense_omitted:
@@ -335,7 +381,7 @@ def replay(payload):
             return [fail("text-differs-between-runs", f"{case['assignment']} {case['formats']}")]
         return []
     fails, _ = c08.check_problem(case, do_cli=True)
-    return [f for f in fails if f["bucket"].startswith("cli-")]
+    return [f for f in fails if f["bucket"].startswith("cli-")] + mention_order_fails(case)
 
 
 def run(chk):
